@@ -53,6 +53,11 @@ TRUSTED = ["harness/extractors/effects.py (static effect extraction; validated a
            "names unrolled; open mode positional, mode=, or via a local literal ('b'/'t' dropped); os.rename/os.replace/shutil.move = mv, os.unlink = os.remove, "
            "shutil.copy* = read+write; unknown pathlib/tempfile/shutil/np.save-like file operations fail closed; the symbol table recognised as the module-level dict "
            "of esr/fitting/sympy_symbols.py under any alias (also returned by a called function); generator objects seeded by a literal, a local literal or a parameter",
+           "effects.py readings (C16r2): a file name returned by a straight-line helper of the stage (assignments + one return of a string-building expression, arguments "
+           "substituted); sep.join over a display / hoisted list / one-generator comprehension of names; a name piece chosen by a conditional of strings is listed once per arm "
+           "(reads/appends: every file it may touch; a truncating open of several candidate names: each only `conditional`; savetxt/remove/rename/shell chosen that way: fail "
+           "closed); a conditional on a parameter bound to True/False by the call or by its constant default takes that arm; constant True/False/string defaults are the "
+           "parameter's value in the callee when the call does not pass it and the callee never re-binds it (differential self-test: harness/extractors/_norm_c16_selftest.py)",
            "memstate.py readings: a returned plain alias of a mutable cell is tracked in the caller; pairwise tuple assignment; see its docstring",
            "harness/extractors/memstate.py (static cell/access extraction: name-based call graph, methods on unknown receivers resolved to every esr method of that name, "
            "statement-level dominance for 're-initialised before use'; fails closed on unclassified initialisers, decorators, methods of mutable cells, escaping aliases, "
@@ -67,7 +72,8 @@ ASSUMPTIONS = ["earlier runs completed (no stale per-rank temp files)",
                "table without binding them first (theorem carried_with_single_function_api_partial; observed each run, reported in coverage.fit_single_api_probe)"]
 # tables whose committed version may stand in as a hand-written model when the translator cannot read the source;
 # value = the correspondence that then ties it to the code (common.prove / common.decide)
-FALLBACK = {'Effects': 'audit trace of every file operation of real generation runs vs the committed effect summary'}
+FALLBACK = {'Effects': 'audit trace of every file operation of real generation runs vs the committed effect summary (every traced open/remove/rename/shell effect must be '
+                        'a (file pattern, access) pair of the committed table and follow a write of the same run) + byte comparison of real runs after drawn histories'}
 MODELLED = []
 
 BASES = {"core_maths": None, "ext_maths": None, "osc_maths": None, "base_e_maths": None}
@@ -130,10 +136,15 @@ def _validate_trace(ctx, trace, libdir):
     try:
         static = set((k, a) for _, _, k, a in fx.analyse(ctx.stage)[0])
     except Exception as e:
-        # the translator cannot read today's source: a broken obligation (the failing-input search goes on), never a crash
-        static = None
-        ctx.disagree("trace:summary-unreadable", "the static effect summary cannot be regenerated from the current source (%s: %s); "
-                     "the audit trace is only checked for read-before-write" % (type(e).__name__, str(e)[:200]))
+        static = _committed_summary(ctx) if isinstance(e, extract.ExtractError) else None
+        if static is not None:
+            # translator fallback (FALLBACK['Effects']): the theorems were checked over the committed table; every file operation of the
+            # real runs must be an effect of THAT table (and, below, follow a write of the same run)
+            ctx.extra["trace_vs_committed_summary"] = str(e)[:200]
+        else:
+            # the translator cannot read today's source: a broken obligation (the failing-input search goes on), never a crash
+            ctx.disagree("trace:summary-unreadable", "the static effect summary cannot be regenerated from the current source (%s: %s); "
+                         "the audit trace is only checked for read-before-write" % (type(e).__name__, str(e)[:200]))
     fresh = set()
     n = 0
     for ev in trace:
@@ -168,6 +179,20 @@ def _validate_trace(ctx, trace, libdir):
                     and not (acc == "w" and (key, "a") in static and _may_truncate(ctx, key)):
                 ctx.disagree("trace:not-in-summary", "dynamic effect (%s,%s) is not in the static effect summary" % (key, acc))
     return n
+
+
+def _committed_summary(ctx):
+    """the (file pattern, access) pairs of the committed generation summary, when common.prove put that table in place of the one the
+    translator could not regenerate (ExtractError on a source shape it does not read); None otherwise"""
+    if "Effects" not in ((getattr(ctx, "proof", None) or {}).get("fallback") or {}):
+        return None
+    try:
+        txt = open(os.path.join(common.HARNESS, "baseline_generated", "Effects.lean"), encoding="utf-8").read()
+        body = re.search(r"def generation : List ESR\.Effects\.Eff := \[(.*?)\n  \]", txt, re.S).group(1)
+        pairs = set(re.findall(r'⟨"[^"]*", \d+, "([^"]*)", \.(\w+)⟩', body))
+        return pairs or None
+    except Exception:
+        return None
 
 
 def _may_truncate(ctx, key):
